@@ -69,10 +69,12 @@ pub fn pred_eval(p: Pred, k: &Val, _v: &Val) -> bool {
     match p {
         Pred::All => true,
         Pred::Nothing => false,
+        // "even": for integers the value, for byte/str keys the parity of the byte sum (key
+        // domains differ in their trailing digits, so this splits them about evenly)
         Pred::Even => match k {
             Val::U(x) => x % 2 == 0,
-            Val::B(b) => b.len() % 2 == 0,
-            Val::S(s) => s.len() % 2 == 0,
+            Val::B(b) => b.iter().map(|x| *x as u32).sum::<u32>() % 2 == 0,
+            Val::S(s) => s.bytes().map(|x| x as u32).sum::<u32>() % 2 == 0,
         },
         Pred::PanicAt(_) => true,
     }
